@@ -1,4 +1,7 @@
-from ipv import Unit, Ob
+import os
+import ipv
+from ipv import Unit, Ob, VERIF
+import factories as F
 
 def build(tier, seed):
     u = Unit('subst', '/repo/src/impl.cxx',
@@ -20,8 +23,36 @@ def build(tier, seed):
         Ob('C16.general.lookup', u, 'C16/subst.c', 'h_gen_lookup', 'general substitution lookup over the assumed std::map contract: hit -> mapped value, miss -> the parameter', kind='K1', replay='C16'),
         Ob('C16.general.subst', u, 'C16/subst.c', 'h_gen_subst', 'general substitution: latest binding wins, other parameters unchanged', kind='K1', replay='C16'),
     ]
+    # the substitutions as the Lexicon's factories hand them out: several requests in a row through the real farms
+    if '-I' + os.path.join(VERIF, 'drivers') not in ipv.CLANG_ARGS:
+        ipv.CLANG_ARGS.append('-I' + os.path.join(VERIF, 'drivers'))
+    SC = dict(elementary_twice=['an elementary substitution maps its parameter to the expression it was built with', 'an elementary substitution has no other binding (not that of a substitution made before)', 'the substitution made before is what it was'],
+              general_twice=['a new general substitution is empty', 'a second general substitution is empty whatever the first holds', 'latest binding per parameter, nothing from another substitution (first)', 'latest binding per parameter, nothing from another substitution (second)'])
+    sn = {'sb_' + k: 'drv::sb_' + k for k in SC}
+    su = Unit('farms', 'drivers/substitutions.cxx', roots=sorted(sn.values()), names=sn, transparent=['std::basic_string_view', 'std::pair'])
+    su.std = dict(u.std)
+    def mksgen(k):
+        def gen(unit):
+            fn = unit.by_name[unit.resolve_name('sb_' + k)]
+            ret, cname, cps = F.cparams(fn['sig'])
+            t = F.PRELUDE_C + (open(os.path.join(VERIF, 'harness/C16/mapmodel.h')).read() if k == 'general_twice' else '') + F.ext_models(unit) + 'void h_sb_%s(void)\n{\n' % k
+            args = []
+            for i, (ct, pn) in enumerate(cps):
+                if ct.strip() in ('_Bool', 'bool'):
+                    t += '  _Bool %s = nondet_bool();\n' % pn
+                else:
+                    t += ('  %s %s = NEWZ(%s);\n' % (ct, pn, ct[:-1].strip())) if 'Lexicon' in ct else F.operand_decl(ct, pn, i)
+                args.append(pn)
+            t += '  unsigned bad = %s(%s);\n' % (cname, ', '.join(args))
+            for b, text_ in enumerate(SC[k]):
+                t += '  __CPROVER_assert(!(bad & %du), "C16 %s: %s");\n' % (1 << b, k.replace('_', ' '), text_)
+            return t + '  IPR_CANARY_POINT();\n}\n', [], dict(scenario=k)
+        return gen
+    for k in SC:
+        o = Ob('C16.factory.' + k, su, None, 'h_sb_' + k, 'substitutions from the Lexicon factories: ' + k.replace('_', ' '), kind='K1', replay='C16', timeout=300, flags=['--unwind', '12'], objbits=12)
+        o.gen = mksgen(k); obs.append(o)
     meta = dict(sweep_family='C16', 
         functions_under_contract=['elem_ctor', 'elem_index', 'gen_index', 'gen_subst'],
         assumptions=['std::map<const Parameter*, const Expr*> behaves as a finite map (find / end / insert_or_assign / iterator ==, ->): single-witness abstraction in harness/C16/subst.c',
                      'exceptions: none can be raised by these functions (no throw in the lowered bodies)'])
-    return [u], obs, meta
+    return [u, su], obs, meta
